@@ -7,6 +7,7 @@ import (
 	"fmt"
 	"io"
 	"regexp"
+	"strconv"
 	"strings"
 	"time"
 
@@ -422,7 +423,10 @@ func checkStore(op *node, wrapper, want string) error {
 	return nil
 }
 
-func checkContent(op Op, idx int, input []byte, verbatim bool) error {
+// lastID is the message-id of the previous request of the session being checked (0 = none yet):
+// the statement asks for "a message-id", C08 for unique and strictly increasing ones; the starting
+// value is not fixed by either.
+func checkContent(op Op, lastID *int, input []byte, verbatim bool) error {
 	root, _, err := parse(input)
 	if err != nil {
 		return fmt.Errorf("request is not well-formed XML: %v", err)
@@ -433,9 +437,13 @@ func checkContent(op Op, idx int, input []byte, verbatim bool) error {
 	}
 
 	id, ok := root.attr("message-id")
-	if !ok || id != fmt.Sprint(101+idx) {
-		return fmt.Errorf("message-id %q (present=%v), want %d", id, ok, 101+idx)
+
+	n, aerr := strconv.Atoi(id)
+	if !ok || aerr != nil || n <= *lastID {
+		return fmt.Errorf("message-id %q (present=%v) after %d: want a number larger than the previous request's", id, ok, *lastID)
 	}
+
+	*lastID = n
 
 	if op.Kind == "rpc" {
 		if verbatim && !bytes.Contains(input, []byte(op.Filter)) {
@@ -620,6 +628,7 @@ func run(c Case) ev.Verdict {
 
 	nt := false
 	classes := []string{"v" + c.Version}
+	lastID := 0
 
 	for i, m := range msgs {
 		if !bytes.Equal(decoded[i], m.input) {
@@ -635,7 +644,7 @@ func run(c Case) ev.Verdict {
 			return ev.Fail("message %d: XML declaration present=%v with exclude-header=%v", i, hasDecl, c.NoHeader)
 		}
 
-		if err = checkContent(c.Ops[i], i, m.input, !c.SelfClosing); err != nil {
+		if err = checkContent(c.Ops[i], &lastID, m.input, !c.SelfClosing); err != nil {
 			return ev.Fail("message %d (%s): %v\n input %q", i, c.Ops[i].Kind, err, m.input)
 		}
 
